@@ -1,12 +1,15 @@
 #!/usr/bin/env python3
-"""tools/matrix.py [names...]  -- run every quick check against every kept seeded change (each applied in its own scratch
-worktree, selected with VERIF_REPO; /repo and the evidence files are not touched) and write seeded/MATRIX.json."""
+"""tools/matrix.py [--own] [names...]  -- run every quick check (or, with --own, only the check of the change's own property)
+against every kept seeded change (each applied in its own scratch worktree of /repo HEAD, selected with VERIF_REPO; /repo and the
+evidence files are not touched) and write seeded/MATRIX.json (seeded/MATRIX_own.json with --own)."""
 import json, os, subprocess, sys, time, glob
 
 VERIF = os.path.dirname(os.path.dirname(os.path.abspath(__file__)))
 ids = [c["property_id"] for c in json.load(open(os.path.join(VERIF, "MANIFEST.json")))["checks"]]
+OWN = "--own" in sys.argv
+sys.argv = [a for a in sys.argv if a != "--own"]
 names = sys.argv[1:] or sorted(os.path.basename(os.path.dirname(p)) for p in glob.glob(os.path.join(VERIF, "seeded/*/patch.diff")))
-out_path = os.path.join(VERIF, "seeded", "MATRIX.json")
+out_path = os.path.join(VERIF, "seeded", "MATRIX_own.json" if OWN else "MATRIX.json")
 matrix = json.load(open(out_path)) if os.path.exists(out_path) else {}
 for name in names:
     wt = f"/tmp/mx/{name}"
@@ -19,7 +22,7 @@ for name in names:
             matrix[name] = {"error": "patch does not apply: " + r.stderr[-200:]}
             continue
         row = {}
-        for cid in ids:
+        for cid in ([name[:3]] if OWN else ids):
             t = time.time()
             p = subprocess.run(f"cd {VERIF} && ./check {cid} --tier quick", shell=True, capture_output=True, text=True, timeout=3600,
                                env=dict(os.environ, VERIF_REPO=wt, VERIF_NO_EVIDENCE="1"))
